@@ -68,7 +68,8 @@ func (self *Transformer) exprCanControlLoop(node ast.AnalyzedExpression) bool {
 	case ast.NoneLiteralExpressionKind:
 		return false
 	case ast.RangeLiteralExpressionKind:
-		return false
+		node := node.(ast.AnalyzedRangeLiteralExpression)
+		return self.exprCanControlLoop(node.Start) || self.exprCanControlLoop(node.End)
 	case ast.ListLiteralExpressionKind:
 		node := node.(ast.AnalyzedListLiteralExpression)
 		for _, expr := range node.Values {
@@ -149,9 +150,19 @@ func (self *Transformer) exprCanControlLoop(node ast.AnalyzedExpression) bool {
 		}
 
 		for _, arm := range node.Arms {
+			for _, literal := range arm.Literals {
+				if self.exprCanControlLoop(literal) {
+					return true
+				}
+			}
+
 			if self.exprCanControlLoop(arm.Action) {
 				return true
 			}
+		}
+
+		if node.DefaultArmAction != nil {
+			return self.exprCanControlLoop(*node.DefaultArmAction)
 		}
 
 		return false
